@@ -1,5 +1,6 @@
 import CruxVerif.Model.Conc
 import Driver.Rt
+import Driver.Slot
 /-! Line protocol of the `conc` engine (C08).
   `(evict N (ORDER))`            : model = M.Conc (P-evict LTS) run on the schedule derived from ORDER
   `(race CMD (PRE*) A1 A2 (ORDER))` : no exact model (the interleaving of real code is not modelled); the oracle checks that the
@@ -262,6 +263,7 @@ def model (line : String) : String :=
     match n.nat?, parseOrder order with
     | some n, some order => modelEvict n order
     | _, _ => "bad-case"
+  | some (.list (.atom "slot" :: _)) => Driver.Slot.model line
   | some (.list (.atom "race" :: _)) => "unmodelled-interleaving"
   | some (.list (.atom "corerace" :: _)) => "unmodelled-interleaving"
   | some (.list (.atom "bridgerace" :: _)) => "unmodelled-interleaving"
@@ -271,6 +273,7 @@ def oracle (input : String) : String :=
   match input.splitOn "\t" with
   | [line, impl] =>
     match Sexp.parse line with
+    | some (.list (.atom "slot" :: _)) => Driver.Slot.oracle line impl
     | some (.list [.atom "evict", n, _]) =>
       if impl.endsWith "STUCK" then "reject schedule-stuck" else
       -- every request was resolved: the task must complete; an evicted task has lost a delivered response
